@@ -153,7 +153,9 @@ func errS(err error) string {
 }
 
 var apiCalls16 = []apiCall{
-	{"verify.TdxQuote", func(m *pb.QuoteV4, raw []byte, vo *verify.Options, po *validate.Options) string { return errS(verify.TdxQuote(m, vo)) }},
+	{"verify.TdxQuote", func(m *pb.QuoteV4, raw []byte, vo *verify.Options, po *validate.Options) string {
+		return errS(verify.TdxQuote(m, vo))
+	}},
 	{"verify.RawTdxQuote", func(m *pb.QuoteV4, raw []byte, vo *verify.Options, po *validate.Options) string {
 		return errS(verify.RawTdxQuote(raw, vo))
 	}},
@@ -167,7 +169,9 @@ var apiCalls16 = []apiCall{
 		b, err := abi.QuoteToAbiBytes(m)
 		return fmt.Sprintf("%s/%d", errS(err), len(b))
 	}},
-	{"abi.CheckQuoteV4", func(m *pb.QuoteV4, raw []byte, vo *verify.Options, po *validate.Options) string { return errS(abi.CheckQuoteV4(m)) }},
+	{"abi.CheckQuoteV4", func(m *pb.QuoteV4, raw []byte, vo *verify.Options, po *validate.Options) string {
+		return errS(abi.CheckQuoteV4(m))
+	}},
 	{"verify.ExtractChainFromQuote", func(m *pb.QuoteV4, raw []byte, vo *verify.Options, po *validate.Options) string {
 		_, err := verify.ExtractChainFromQuote(m)
 		return errS(err)
@@ -467,7 +471,6 @@ func c16(x *mon.Ctx) {
 	x.Note("race-detector", fmt.Sprintf("%d calls, %d reports", calls, total), len(lib) == 0, false, true)
 	x.Sample(map[string]any{"sub_check": "race", "rounds": rounds, "concurrent_calls": calls, "race_reports_total": total, "distinct_reports_in_library": len(lib), "verdict_mismatches": mismatches})
 }
-
 
 // FirstUse is run in a FRESH process (vworker -firstuse): its very first library calls are concurrent
 // verifications, half of them with the embedded root (TrustedRoots nil) and half with a generated pool, so that
